@@ -20,8 +20,28 @@ Theorem C11_guarded_setter_refuted : forall (Prm Law : Type) (behavior : Prm -> 
               <> Some (behavior (last_prm Prm p ops)).
 Proof. intros. now apply guarded_shortcut_refuted with (q := q). Qed.
 
+(* derived caches (Get_sqrt_C_S): after any interleaving of assignments, notifications, reads of the law
+   and reads of the derived quantity, BOTH kinds of read reflect the current parameters — in particular
+   the derived read may be the first read after a setter *)
+Theorem C11_lazy_update_derived : forall (Prm Law Der : Type) (behavior : Prm -> Law) (derive : Law -> Der)
+  (p0 : Prm) (ops : list (dop Prm)),
+  snd (dstep Prm Law Der behavior derive (drun Prm Law Der behavior derive (dinit Prm Law Der p0) ops) (DReadLaw Prm))
+    = RLaw Law Der (Some (behavior (dlast Prm p0 ops))) /\
+  snd (dstep Prm Law Der behavior derive (drun Prm Law Der behavior derive (dinit Prm Law Der p0) ops) (DReadDer Prm))
+    = RDer Law Der (Some (derive (behavior (dlast Prm p0 ops)))).
+Proof. intros. apply lazy_update_derived. Qed.
+
+(* a derived read that trusts a populated cache without reading C first violates it *)
+Theorem C11_derived_shortcut_refuted : forall (Prm Law Der : Type) (behavior : Prm -> Law) (derive : Law -> Der) (p q : Prm),
+  derive (behavior p) <> derive (behavior q) ->
+  exists ops, snd (dstep_shortcut Prm Law Der behavior derive (drun_shortcut Prm Law Der behavior derive (dinit Prm Law Der p) ops) (DReadDer Prm))
+              <> RDer Law Der (Some (derive (behavior (dlast Prm p ops)))).
+Proof. intros. now apply derived_shortcut_refuted with (q := q). Qed.
+
 Example guarded_refuted_nonvacuous : (fun x : nat => x) 1 <> (fun x : nat => x) 2.
 Proof. discriminate. Qed.
 
 Print Assumptions C11_lazy_update.
 Print Assumptions C11_guarded_setter_refuted.
+Print Assumptions C11_lazy_update_derived.
+Print Assumptions C11_derived_shortcut_refuted.
